@@ -49,6 +49,8 @@ class Uninterp:
             rs = z3.IntSort()
         elif isinstance(self.ret, TBool):
             rs = z3.BoolSort()
+        elif isinstance(self.ret, TFloat):
+            rs = z3.FPSort(11, 53) if self.ret.kind == "f64" else z3.FPSort(8, 24)
         else:
             raise Unsupported("Uninterp return type %r" % (self.ret,))
         key = (self.name, tuple(str(t.sort()) for t in ts), str(rs))
@@ -65,6 +67,8 @@ class Uninterp:
                 eng.assume(r >= self.ret.lo)
             if self.ret.hi is not None:
                 eng.assume(r <= self.ret.hi)
+        elif isinstance(self.ret, TFloat):
+            out = VFloat(r, self.ret.kind, self.ret.isnp)
         else:
             out = VBool(r)
         if self.axiom is not None:
